@@ -56,6 +56,26 @@ theorem c15_delete_finishes (c : Cfg) (o : Bool) (fs : FileSet) (hd : ¬ Del fs)
         (startup o (run pre fs)).2.index = .absent ∧ ¬ Del (startup o (run pre fs)).2) :=
   sealedSuicide_finishes c o fs hd h pre hp hne
 
+/-- **C15 (deleting an active fraction), partial.**  The full statement - "after any prefix of `Active.Suicide` that
+changed the disk the fraction serves nothing and the next start removes its documents" - holds when no `.index`
+exists next to the active files (always the case when documents are re-sorted, `c15_role_matches_disk`).
+MISSING for the full statement: with `SkipSortDocs` and `KeepMetaFile` both set a sealed fraction is replayed as an
+active one after a restart and keeps its `.index`; see the counterexample below. -/
+theorem c15_active_delete_finishes_partial (c : Cfg) (fs : FileSet) (hd : ¬ Del fs) (h : ShapeE fs ∨ ShapeA c fs)
+    (hi : fs.index = .absent) (pre : List Op) (hp : pre <+: activeSuicideOps) (hne : pre ≠ []) :
+    served false (run pre fs) = .none ∧ (startup false (run pre fs)).1 = .none ∧
+      (startup false (run pre fs)).2.docs = .absent ∧ (startup false (run pre fs)).2.sdocs = .absent :=
+  activeSuicide_finishes c fs hd h hi pre hp hne
+
+/-- **Counterexample to the full statement (open finding).**  `SkipSortDocs` + `KeepMetaFile`: a sealed fraction whose
+`.meta` was kept is held as active after a restart; `Active.Suicide` is cut after `.meta` is removed; the next start
+loads `.docs` + `.index` as a sealed fraction and serves every document of the fraction that was being deleted. -/
+theorem c15_active_delete_reappears :
+    let fs : FileSet := { docs := .full, metaF := .full, index := .full }
+    ShapeA ⟨true, true⟩ fs ∧ ¬ Del fs ∧ (startup false fs).1 = .active ∧
+      ∀ o, served o (run (activeSuicideOps.take 1) fs) = .all := by
+  refine ⟨by simp [ShapeA], by simp [Del], by decide, fun o => by cases o <;> decide⟩
+
 /-- **C15 (retention removes the shortest prefix of the creation order).**  `shrinkSizes` on fractions in creation
 order: what is removed is a prefix, what is kept fits the limit, and no shorter prefix would have been enough. -/
 theorem c15_oldest_first (limit : Nat) (sizes : List Nat) :
